@@ -5,6 +5,7 @@
 //!   abv replay <file>
 //!   abv probe ...                      child-process probes (native stack depth)
 
+mod cmp;
 mod drive;
 mod exec;
 mod gen;
